@@ -262,11 +262,39 @@ func (g *GenCtx) Gen(d *Desc, v reflect.Value, ft string) {
 		}
 		v.Set(s)
 	case KDictE:
-		if g.ModelOnly || g.Rng.Intn(2) == 0 || g.depth > 8 {
+		if g.Rng.Intn(2) == 0 || g.depth > 8 {
 			g.cov("dict:empty")
 			return
 		}
 		g.genDict(v)
+	case KDict: // hm_edge: at least one entry
+		g.genDictInto(v, 1)
+	case KChain: // at least one element (an empty chain writes nothing and cannot be read back)
+		n := 1 + g.Rng.Intn(3)
+		s := reflect.MakeSlice(v.Type(), n, n)
+		for i := 0; i < n; i++ {
+			g.Gen(d.Elem, s.Index(i), "p")
+		}
+		v.Set(s)
+	case KCustom:
+		g.depth--
+		g.Gen(d.Elem, v, ft)
+		g.depth++
+		g.customDomain(d, v)
+	case KDictAugE: // only the empty dictionary can be written: mostly empty, the extra random
+		g.Gen(d.Elem3, v.FieldByName("extra"), "p")
+	case KDictAug:
+	case KHighload:
+		n := g.Rng.Intn(4)
+		if n == 0 {
+			return
+		}
+		s := reflect.MakeSlice(v.Type(), n, n)
+		for i := 0; i < n; i++ {
+			s.Index(i).FieldByName("Message").Set(reflect.ValueOf(g.RandCell(200, 1, 1)))
+			s.Index(i).FieldByName("Mode").SetUint(uint64(g.Rng.Intn(256)))
+		}
+		v.Set(s)
 	case KOpaque:
 		// a few unmodelled codecs whose zero value is outside their domain get a minimal in-domain value
 		switch baseName(v.Type()) {
@@ -312,10 +340,38 @@ func (g *GenCtx) genNamed(d *Desc, v reflect.Value) {
 	if body == nil {
 		return
 	}
+	var cu *Desc
+	if body.Kind == KCustom {
+		cu, body = body, body.Elem
+	}
 	if body.Kind == KSum {
 		g.genSum(body, v, d.Name)
 	} else {
 		g.genStruct(body, v)
+	}
+	if cu != nil {
+		g.customDomain(cu, v)
+	}
+}
+
+// customDomain moves a generated value into the domain of a flag-dependent layout
+func (g *GenCtx) customDomain(d *Desc, v reflect.Value) {
+	if d.Name == "tlb.McBlockExtra" {
+		// config:key_block?ConfigParams (the type has no MarshalTLB: the reflection encoder writes Config whatever
+		// key_block says; the decoder reads it only in a key block)
+		if !v.FieldByName("KeyBlock").Bool() {
+			c := v.FieldByName("Config")
+			c.Set(reflect.Zero(c.Type()))
+		}
+	}
+	if d.Name == "tlb.McStateExtraOther" {
+		// flags <= 1, block_create_stats present iff flags = 1
+		fl := v.FieldByName("Flags")
+		fl.SetUint(uint64(g.class("mcStateExtraOther.flags", 2)))
+		if fl.Uint() != 1 {
+			st := v.FieldByName("BlockCreateStats")
+			st.Set(reflect.Zero(st.Type()))
+		}
 	}
 }
 
@@ -453,6 +509,12 @@ func (g *GenCtx) genPrim(d *Desc, v reflect.Value) {
 		b := make([]byte, g.Rng.Intn(60))
 		g.Rng.Read(b)
 		v.SetString(string(b))
+	case "addrWc":
+		v.FieldByName("Workchain").SetInt(int64([]int{0, -1, 127, -128, g.Rng.Intn(256) - 128}[g.Rng.Intn(5)]))
+		a := v.FieldByName("Address")
+		for i := 0; i < a.Len(); i++ {
+			a.Index(i).SetUint(uint64(g.Rng.Intn(256)))
+		}
 	case "anycast":
 		g.genAnycast(v)
 	case "msgAddress":
@@ -460,9 +522,9 @@ func (g *GenCtx) genPrim(d *Desc, v reflect.Value) {
 	case "accountStatus":
 		v.SetString([]string{"uninit", "frozen", "active", "nonexist"}[g.Rng.Intn(4)])
 	case "accStatusChange":
-		v.SetString([]string{"acst_unchanged", "acst_frozen", "acst_deleted"}[g.Rng.Intn(3)])
+		v.SetString([]string{"acst_unchanged", "acst_frozen", "acst_deleted"}[g.class("accStatusChange", 3)])
 	case "computeSkipReason":
-		v.SetString([]string{"cskip_no_state", "cskip_bad_state", "cskip_no_gas", "cskip_suspended"}[g.Rng.Intn(4)])
+		v.SetString([]string{"cskip_no_state", "cskip_bad_state", "cskip_no_gas", "cskip_suspended"}[g.class("computeSkipReason", 4)])
 	case "vmCellSlice":
 		c := g.RandCell(200, 2, 1)
 		eb := g.Rng.Intn(c.BitSize() + 1)
